@@ -27,7 +27,7 @@
                          loop is running.
    Calls are identified by the order in which they are made (uid); a dispose names the uid.
    Assumption of the property built into the system: the loop does not start while a dispose that
-   found it not running is in progress ([adirect]). *)
+   found it not running is in progress on another thread ([quiet] in [loop_step]). *)
 From RxVerif Require Import Base.Prelude.
 Local Open Scope Z_scope.
 
@@ -62,12 +62,12 @@ Record ash := ASh {
   adisp : list nat;                (* calls whose Disposable has been disposed (test-and-set done) *)
   afut : list nat;                 (* futures with a result *)
   anfut : nat;
-  adirect : nat;                   (* disposes in progress on foreign threads that found the loop not running *)
+  aran : list nat;                 (* ghost: two-stage calls whose stage2 has been entered *)
   aeff : list nat }.               (* ghost: calls whose cancellation is complete *)
 
 (* a dispose in progress *)
 Inductive dst :=
-| FPop2 (u : nat) (counted : bool)     (* direct, two-stage: before the second `handle.pop().cancel()` *)
+| FPop2 (u : nat)                      (* direct, two-stage: before the second `handle.pop().cancel()` *)
 | FWait (u : nat) (f : nat).           (* marshalled: in future.result() *)
 
 Inductive aphase :=
@@ -127,7 +127,7 @@ Variable abody : nat -> list aop.     (* what the action of call u does, on the 
 
 Definition set_core (s : ash) (woken : bool) (hs : list cb) (ready : list nat) (timers : list (Z * nat))
   (hl : list (bool * list nat)) (due : list Z) : ash :=
-  ASh (aclock s) (arunning s) woken hs ready timers (acanc s) hl due (adisp s) (afut s) (anfut s) (adirect s) (aeff s).
+  ASh (aclock s) (arunning s) woken hs ready timers (acanc s) hl due (adisp s) (afut s) (anfut s) (aran s) (aeff s).
 
 (* schedule / schedule_relative *)
 Definition do_sched (s : ash) (d : Z) : ash * list aev :=
@@ -144,9 +144,9 @@ Definition do_sched (s : ash) (d : Z) : ash * list aev :=
               (ahl s ++ [(false, [h])]) (adue s ++ [aclock s + d]), [ARet u]).
 
 Definition set_canc (s : ash) (canc : list nat) (hl : list (bool * list nat)) (fut : list nat)
-  (direct : nat) (eff : list nat) : ash :=
+  (eff : list nat) : ash :=
   ASh (aclock s) (arunning s) (awoken s) (ahs s) (aready s) (atimers s) canc hl (adue s) (adisp s) fut
-      (anfut s) direct eff.
+      (anfut s) (aran s) eff.
 
 (* cancel everything the closure of call u refers to, in one go (cancel_handle on the loop, or the
    single-handle closures) *)
@@ -165,38 +165,35 @@ Definition do_dispose (on_loop : bool) (s : ash) (u : nat) : ash * option dst * 
       if amem u (adisp s) then (s, None, [ADispNoop u])
       else
         let s1 := ASh (aclock s) (arunning s) (awoken s) (ahs s) (aready s) (atimers s) (acanc s) (ahl s) (adue s)
-                      (u :: adisp s) (afut s) (anfut s) (adirect s) (aeff s) in
+                      (u :: adisp s) (afut s) (anfut s) (aran s) (aeff s) in
         let direct := on_loop || negb (arunning s) || negb (ts && fixed) in
         if direct then
           if two then
             match l with
-            | [] => (set_canc s1 (acanc s) (ahl s) (afut s) (adirect s) (u :: aeff s), None, [ADispRet u])
+            | [] => (set_canc s1 (acanc s) (ahl s) (afut s) (u :: aeff s), None, [ADispRet u])
             | _ =>
-                let counted := negb on_loop && negb (arunning s) in
-                (set_canc s1 (last l 0%nat :: acanc s) (aupd u (true, removelast l) (ahl s)) (afut s)
-                          (if counted then S (adirect s) else adirect s) (aeff s),
-                 Some (FPop2 u counted), [])
+                (set_canc s1 (last l 0%nat :: acanc s) (aupd u (true, removelast l) (ahl s)) (afut s) (aeff s),
+                 Some (FPop2 u), [])
             end
           else
-            (set_canc s1 (l ++ acanc s) (ahl s) (afut s) (adirect s) (u :: aeff s), None, [ADispRet u])
+            (set_canc s1 (l ++ acanc s) (ahl s) (afut s) (u :: aeff s), None, [ADispRet u])
         else
           let f := anfut s in
           let h := length (ahs s) in
           (ASh (aclock s) (arunning s) true (ahs s ++ [CbCancel u f]) (aready s ++ [h]) (atimers s) (acanc s)
-               (ahl s) (adue s) (u :: adisp s) (afut s) (S f) (adirect s) (aeff s),
+               (ahl s) (adue s) (u :: adisp s) (afut s) (S f) (aran s) (aeff s),
            Some (FWait u f), [])
   end.
 
 (* continuing a dispose in progress; None = blocked *)
 Definition do_cont (s : ash) (c : dst) : option (ash * list aev) :=
   match c with
-  | FPop2 u counted =>
-      let dir := if counted then pred (adirect s) else adirect s in
+  | FPop2 u =>
       match nth_error (ahl s) u with
       | Some (_, x :: l) =>
           Some (set_canc s (last (x :: l) 0%nat :: acanc s) (aupd u (true, removelast (x :: l)) (ahl s)) (afut s)
-                         dir (u :: aeff s), [ADispRet u])
-      | _ => Some (set_canc s (acanc s) (ahl s) (afut s) dir (u :: aeff s), [ADispRet u])   (* IndexError, swallowed *)
+                         (u :: aeff s), [ADispRet u])
+      | _ => Some (set_canc s (acanc s) (ahl s) (afut s) (u :: aeff s), [ADispRet u])   (* IndexError, swallowed *)
       end
   | FWait u f => if amem f (afut s) then Some (s, [ADispRet u]) else None
   end.
@@ -232,7 +229,8 @@ Definition next_handle (s : ash) (k : nat) : ash * aphase :=
   | _, _ => end_iter s
   end.
 
-Definition loop_step (s : ash) (ph : aphase) : option (ash * aphase * list aev) :=
+(* [quiet]: no foreign thread is in the middle of a direct dispose (the loop may start) *)
+Definition loop_step (quiet : bool) (s : ash) (ph : aphase) : option (ash * aphase * list aev) :=
   match ph with
   | LPre cur todo =>
       match call_step true s cur todo with
@@ -241,9 +239,9 @@ Definition loop_step (s : ash) (ph : aphase) : option (ash * aphase * list aev) 
           match cur with
           | Some _ => None                                      (* blocked in future.result() *)
           | None =>
-              if Nat.eqb (adirect s) 0                            (* run_forever() *)
+              if quiet                                            (* run_forever() *)
               then let s1 := ASh (aclock s) true (awoken s) (ahs s) (aready s) (atimers s) (acanc s) (ahl s)
-                                 (adue s) (adisp s) (afut s) (anfut s) (adirect s) (aeff s) in
+                                 (adue s) (adisp s) (afut s) (anfut s) (aran s) (aeff s) in
                    let '(s', ph') := end_iter s1 in Some (s', ph', [])
               else None
           end
@@ -264,11 +262,13 @@ Definition loop_step (s : ash) (ph : aphase) : option (ash * aphase * list aev) 
         | Some (CbAction u) => Some (s, LAct u None (abody u) k, [AStart u])
         | Some (CbStage2 u d) =>
             let ht := length (ahs s) in
-            Some (set_core s (awoken s) (ahs s ++ [CbAction u]) (aready s) (tinsert (aclock s + d) ht (atimers s))
-                           (ahl s) (adue s), LStage2b u ht k, [])
+            let s1 := set_core s (awoken s) (ahs s ++ [CbAction u]) (aready s) (tinsert (aclock s + d) ht (atimers s))
+                               (ahl s) (adue s) in
+            Some (ASh (aclock s1) (arunning s1) (awoken s1) (ahs s1) (aready s1) (atimers s1) (acanc s1) (ahl s1)
+                      (adue s1) (adisp s1) (afut s1) (anfut s1) (u :: aran s1) (aeff s1), LStage2b u ht k, [])
         | Some (CbCancel u f) =>
             let '(canc, hl) := cancel_all s u in
-            let s1 := set_canc s canc hl (f :: afut s) (adirect s) (u :: aeff s) in
+            let s1 := set_canc s canc hl (f :: afut s) (u :: aeff s) in
             let '(s', ph') := next_handle s1 k in Some (s', ph', [])
         | None => let '(s', ph') := next_handle s k in Some (s', ph', [])     (* not reachable *)
         end
@@ -293,6 +293,9 @@ Definition loop_step (s : ash) (ph : aphase) : option (ash * aphase * list aev) 
 Definition astamp (tid : nat) (t : Z) (out : list aev) : list (nat * Z * aev) :=
   map (fun e => (tid, t, e)) out.
 
+Definition in_pop2 (t : athread) : bool :=
+  match t with AF (Some (FPop2 _)) _ => true | _ => false end.
+
 Definition atstep (c : aconfig) (tid : nat) : aconfig :=
   let s := a_sh c in
   match nth_error (a_ths c) tid with
@@ -304,7 +307,7 @@ Definition atstep (c : aconfig) (tid : nat) : aconfig :=
           AConfig s' (aupd tid (AF cur' todo') (a_ths c)) (a_log c ++ astamp tid (aclock s) out)
       end
   | Some (AL ph) =>
-      match loop_step s ph with
+      match loop_step (negb (existsb in_pop2 (a_ths c))) s ph with
       | None => c
       | Some (s', ph', out) => AConfig s' (aupd tid (AL ph') (a_ths c)) (a_log c ++ astamp tid (aclock s) out)
       end
@@ -313,7 +316,7 @@ Definition atstep (c : aconfig) (tid : nat) : aconfig :=
 Definition atick (c : aconfig) (d : nat) : aconfig :=
   let s := a_sh c in
   AConfig (ASh (aclock s + Z.of_nat d) (arunning s) (awoken s) (ahs s) (aready s) (atimers s) (acanc s) (ahl s)
-               (adue s) (adisp s) (afut s) (anfut s) (adirect s) (aeff s)) (a_ths c) (a_log c).
+               (adue s) (adisp s) (afut s) (anfut s) (aran s) (aeff s)) (a_ths c) (a_log c).
 
 Definition amstep (c : aconfig) (m : amove) : aconfig :=
   match m with AMStep tid => atstep c tid | AMTick d => atick c d end.
@@ -322,7 +325,7 @@ Definition arun (c : aconfig) (sched : list amove) : aconfig := fold_left amstep
 
 (* thread 0 is the loop thread (its calls before run_forever: [pre]); the others are foreign *)
 Definition ainit (t0 : Z) (pre : list aop) (progs : list (list aop)) : aconfig :=
-  AConfig (ASh t0 false false [] [] [] [] [] [] [] [] 0 0 [])
+  AConfig (ASh t0 false false [] [] [] [] [] [] [] [] 0 [] [])
           (AL (LPre None pre) :: map (fun p => AF None p) progs) [].
 End System.
 
